@@ -95,8 +95,44 @@ func round12Harmless() []mutant {
 	return out
 }
 
+// round13Unresolved: correct medium-size changes of round 13 on which a rule still alarms (see DESIGN §11):
+// they are kept with the others for the record and are not fixtures.
+var round13Unresolved = map[string]string{
+	"C02/a": "R10: per-document working state recycled through the pooled builder (three re-extensions, each clean for a different reason)",
+	"C04/a": "R6b: a second, unbuffered way of writing body and footer (no Flush on that path)",
+	"C09/b": "R6/R15: the output file owned by a higher-order helper (`writeSegmentFile(path, fill)`)",
+	"C17/b": "R6/R15/R7: the output file owned by a helper type with commit / discardUnlessCommitted",
+	"C18/b": "R6/R15/R7: as C17/b (mergeOutput)",
+	"C20/a": "R6c/R14/R3: small files read into the heap instead of being mapped (a second way of acquiring the bytes)",
+}
+
+// round13Harmless: the correct medium-size changes of round 13 (refactors/r13/<property>/{a,b}.diff: a second
+// way of doing something, a robustness / maintainability improvement), minus round13Unresolved.
+func round13Harmless() []mutant {
+	var out []mutant
+	ms, _ := filepath.Glob(filepath.Join(verifDir, "refactors", "r13", "*", "?.diff"))
+	sort.Strings(ms)
+	for _, m := range ms {
+		prop := filepath.Base(filepath.Dir(m))
+		rel, err := filepath.Rel(verifDir, m)
+		if err != nil {
+			continue
+		}
+		letter := strings.TrimSuffix(filepath.Base(m), ".diff")
+		if _, skip := round13Unresolved[prop+"/"+letter]; skip {
+			continue
+		}
+		id := "h-r13-" + prop + "-" + letter
+		if b, err := os.ReadFile(m); err == nil && (strings.Contains(string(b), "faiss_vector") || strings.Contains(string(b), "section_faiss")) {
+			out = append(out, mutant{Harmless: true, ID: id + "-vectors", Patch: rel, Vectors: true})
+		}
+		out = append(out, mutant{Harmless: true, ID: id, Patch: rel})
+	}
+	return out
+}
+
 func harmlessTable() []mutant {
-	return append(append(append(append(fixedHarmless(), smallHarmless()...), round8Harmless()...), round9Harmless()...), round12Harmless()...)
+	return append(append(append(append(append(fixedHarmless(), smallHarmless()...), round8Harmless()...), round9Harmless()...), round12Harmless()...), round13Harmless()...)
 }
 
 func fixedHarmless() []mutant {
